@@ -39,7 +39,7 @@ class Unit:
                  assumed=(), loops=False, unwind=None, unwindset=(), flags=(), timeout=600, tier="quick",
                  bounded=None, functions=(), defs=(), branch=False, noconv=True, closed_by=None,
                  min_obl=1, note="", solver=None, mem_gb=12, nondet_static=False, slice_formula=False,
-                 replay=None, extra_instrument=(), loop_contracts=None):
+                 replay=None, extra_instrument=(), loop_contracts=None, object_bits=12, script=None):
         self.name = name; self.props = list(props); self.harness = harness; self.entry = entry
         self.cfg = cfg; self.verify = verify; self.enforce = list(enforce); self.replace = list(replace)
         self.assumed = list(assumed); self.loops = loops; self.unwind = unwind; self.unwindset = list(unwindset)
@@ -49,6 +49,8 @@ class Unit:
         self.solver = solver; self.mem_gb = mem_gb; self.nondet_static = nondet_static
         self.slice_formula = slice_formula; self.replay = replay; self.extra_instrument = list(extra_instrument)
         self.loop_contracts = loop_contracts or {}
+        self.object_bits = object_bits or 12
+        self.script = script    # supporting static fact: a command (list) run instead of the cbmc pipeline; exit 0 ok, 1 violated, else undecided
         if self.loop_contracts:
             self.loops = True
 
@@ -189,7 +191,7 @@ def write_loop_contracts(u, wd, src):
     return None
 
 def cbmc_cmd(u, extra=()):
-    cmd = ["cbmc", "--object-bits", "12"] + [f for f in CHECK_FLAGS if not (u.noconv and f == "--conversion-check")]
+    cmd = ["cbmc", "--object-bits", str(getattr(u, "object_bits", None) or 12)] + [f for f in CHECK_FLAGS if not (u.noconv and f == "--conversion-check")]
     if u.unwind is not None:
         cmd += ["--unwind", str(u.unwind), "--unwinding-assertions"]
     if u.unwindset:
@@ -242,6 +244,23 @@ def run_unit(u, keep=False):
     os.makedirs(wd)
     r = {"unit": u.name, "state": "broken", "reason": "", "results": [], "t_cc": 0, "t_instr": 0, "t_cbmc": 0,
          "cmds": [], "wd": wd}
+    if u.script:
+        cmd = [x.replace("$REPO", REPO).replace("$VERIF", VERIF) for x in u.script]
+        r["cmds"].append(" ".join(cmd))
+        rc, so, se, t = sh(cmd, u.timeout, VERIF, u.mem_gb)
+        r["t_cbmc"] = round(t, 2)
+        out = (so + se).decode(errors="replace")
+        open(os.path.join(wd, "script.out"), "w").write(out)
+        desc = u.note or ("static fact " + u.name)
+        if rc == 0:
+            r.update(state="ok", n_obl=1, n_ok=1, reach=["(script unit: exit status is the verdict)"],
+                     results=[{"id": u.name + ".script", "desc": desc, "status": "SUCCESS", "file": "", "function": "h_script", "line": "", "class": "assertion"}])
+        elif rc == 1:
+            f = {"id": u.name + ".script", "desc": desc, "status": "FAILURE", "file": "", "function": "h_script", "line": "", "class": "assertion", "script_output": out[-4000:]}
+            r.update(state="fail", n_obl=1, n_ok=0, fails=[f], results=[f])
+        else:
+            r["reason"] = "script unit failed to run (rc=%d): %s" % (rc, out[-600:])
+        return r
     c = compile_cmd(u, wd)
     r["cmds"].append(" ".join(c))
     rc, so, se, t = sh(c, 300, wd)
